@@ -357,7 +357,7 @@ def canon_result(res, opname, facets):
         if not m:
             return "ok " + body
         return "ok n=%s at=%s visit=%s" % (m.group(1), canon_list(m.group(2)), canon_list(m.group(3)))
-    if opname in ("qnext", "qget", "qcount", "qat"):
+    if opname in ("qnext", "qget", "qgetc", "qcount", "qat"):
         return "ok " + body if "cursor" in facets else "ok"
     if opname == "stats":
         return "ok " + body if "stats" in facets else "ok"
